@@ -108,3 +108,33 @@ type QSameC struct {
 	K   *int     `json:"k"`
 	S   []string `json:"s"`
 }
+
+// QCtxMP: the context-aware MarshalJSON has a pointer receiver; held by value in addressable
+// places (members of a struct reached through a pointer, slice and array elements) and by pointer.
+type QCtxMP struct{ N int }
+
+func (m *QCtxMP) MarshalJSON(ctx context.Context) ([]byte, error) {
+	var q *gojson.FieldQuery
+	if ctx != nil {
+		q = gojson.FieldQueryFromContext(ctx)
+	}
+	names := ""
+	if q != nil {
+		for i, f := range q.Fields {
+			if i > 0 {
+				names += ","
+			}
+			names += f.Name
+		}
+	}
+	return []byte(`{"n":` + strconv.Itoa(m.N) + `,"seen":"` + names + `"}`), nil
+}
+
+type QCtxPHolder struct {
+	A  int
+	V  QCtxMP
+	L  []QCtxMP
+	Ar [2]QCtxMP
+	P  *QCtxMP
+	Z  string
+}
